@@ -1,5 +1,6 @@
 //! axv: runtime-monitoring harness for AxmosDB (see /verif/DESIGN.md).
 pub mod c05;
+pub mod c12;
 pub mod dbx;
 pub mod hist;
 pub mod sqlgen;
